@@ -31,7 +31,13 @@ META = dict(
          "task ids, keyword / nested JSON arguments, extra top-level fields, ProxyFormatter+JSON / JSONFormatter / ProxyFormatter+pickle); "
          "for ~25 percent the tasks the messages name are registered late / elsewhere: before the Receiver exists, after it exists, while "
          "listen() runs (between messages), on the worker's broker (decorator / register_task), through async_shared_broker (global "
-         "registry, default broker set before / after / never) or on another broker object (unknown to this worker: skipped);"
+         "registry, default broker set before / after / never) or on another broker object (unknown to this worker: skipped); "
+         "for ~10 percent one task NAME is registered with TWO different functions - a task published through async_shared_broker and "
+         "overridden on the worker's broker (shared first / local first; before / after the Receiver exists / while listening), a name "
+         "re-registered in one registry, a name also held by another broker object - whose parameter lists differ (injected "
+         "TaskiqDepends parameters - TaskiqState, Context, plain / async / generator providers, default or Annotated form - that only "
+         "one / both / each has, bare or annotated message parameters, a further optional parameter, a **catch-all; sync vs async): every "
+         "message naming it must enter the function find_task designates exactly once (entries of the other one are logged apart);"
          " Further family (own random stream): the REAL taskiq.api.run_receiver_task coroutine runs for the whole scenario over a scripted listen() that raises 0..3 times (ConnectionError, RuntimeError, TimeoutError, OSError, EOFError, a client's own class, a falsy exception object, an ExceptionGroup, BrokerError) as the first thing a session does / right after taking a message / while tasks are in flight / while idle, the remaining messages going to the re-started listening; N and wait_tasks_timeout set by the receiver class handed to it, stop = the finish event it gave to listen(); decided by the direct oracles only, every listen() session held to the statement by its own messages; "
          "further family: run_receiver_task cancelled by the application that embeds it while sync functions (with durations) wait in a "
          "pool of 1..3 threads (recv_props.gen_live_cancel): a message acknowledged under when_executed / when_saved must have entered its function, un-run un-acknowledged messages are not claimed; "
@@ -50,18 +56,24 @@ META = dict(
                  "had started is claimed only until run_receiver_task itself has ended)",
                  "a message naming a task that is registered strictly before the message arrives - on the worker's broker or in the "
                  "global registry - is a valid known-task message",
-                 "pre_execute hooks that raise are the pipeline's concern (C10): such a message is exempt from 'must enter the body'"],
+                 "pre_execute hooks that raise are the pipeline's concern (C10): such a message is exempt from 'must enter the body'",
+                 "a task name registered with two functions: the function the message's task is = the one AsyncBroker.find_task hands out "
+                 "(the worker's own registry first, then the global one; the later registration within one registry). Not generated: a "
+                 "function registered under a name AFTER the Receiver was built with another function visible under that name, the two "
+                 "differing in their injected parameters (unchanged-tree finding, corpus/C01/findings: the Receiver keeps the dependency "
+                 "graph it prepared for the name); nor a name re-bound between two messages that name it"],
 )
 # reg_p: when and where the tasks the messages name get registered (recv_props.decorate_reg)
-PROF = dict(stop_p=.4, n_p=.35, ends_p=.2, wtt_p=.25, never=.03, wire_p=.3, reg_p=.25)
-PROF_BACKLOG = dict(backlog=True, stop_p=.3, n_p=.5, ends_p=.1, wtt_p=.2, wire_p=.3, reg_p=.15)
+# dup_p: one task name registered with two different functions (recv_props.decorate_dup)
+PROF = dict(stop_p=.4, n_p=.35, ends_p=.2, wtt_p=.25, never=.03, wire_p=.3, reg_p=.25, dup_p=.1)
+PROF_BACKLOG = dict(backlog=True, stop_p=.3, n_p=.5, ends_p=.1, wtt_p=.2, wire_p=.3, reg_p=.15, dup_p=.1)
 # run_receiver_task running for the whole scenario over a listen() that fails 0..3 times (recv_props.gen_live)
-PROF_LIVE = dict(stop_p=.4, n_p=.3, ends_p=.15, wtt_p=.2, wire_p=.2, reg_p=.3)
+PROF_LIVE = dict(stop_p=.4, n_p=.3, ends_p=.15, wtt_p=.2, wire_p=.2, reg_p=.3, dup_p=.1)
 # run_receiver_task cancelled by the application that embeds it while sync functions wait in a small pool (recv_props.gen_live_cancel)
 PROF_CANCEL = dict(stop_p=.12, n_p=.08, ends_p=.1, wtt_p=.08, slowcancel=.05, aw_p=.12, outage_p=.05, wire_p=.1)
 
 # one Receiver object that listens again after listen() failed while every slot was busy (recv_props.gen_relisten, mode fault only)
-PROF_RELISTEN = dict(wire_p=.2, reg_p=.1, relisten_stop_p=0, relisten_any_p=.1)
+PROF_RELISTEN = dict(wire_p=.2, reg_p=.1, relisten_stop_p=0, relisten_any_p=.1, dup_p=.1)
 
 
 def oracle(sc, obs):
@@ -74,9 +86,13 @@ def oracle(sc, obs):
     # never two; none for malformed / unknown-task messages (whole log, including the second after the return)
     for i, m in enumerate(msgs):
         n = len(f.bodyin.get(i, []))
-        if n > 1:
-            out.append(dict(what="task function entered more than once for one message", observed=dict(msg=i, entries=n),
-                            expected=1, sig=dict(kind="dup")))
+        # (a task name registered with two functions, recv_props.decorate_dup: `body.in` is the entry of the function find_task
+        # designates, `shadow.in` that of the other one - one message, two function runs is "twice" whichever functions ran)
+        n2 = n + len(f.shadowin.get(i, []))
+        if n2 > 1:
+            out.append(dict(what="task function entered more than once for one message",
+                            observed=dict(msg=i, entries=n2, of_the_designated_function=n), expected=1, sig=dict(kind="dup")))
+        n = n2
         if n and (m["kind"] != "ok" or i not in f.take_t):
             out.append(dict(what="task function entered for a malformed / unknown-task / never-taken message",
                             observed=dict(msg=i, kind=m["kind"], entries=n), expected=0, sig=dict(kind="spurious")))
